@@ -28,7 +28,7 @@ package quic
 //@      (m.maxStream < m.nextStreamToOpen || len(m.streams) + (m.maxStream - m.nextStreamToOpen) / 4 + 1 <= m.maxNumStreams)
 
 //@ func (m *incomingStreamsMap[T]) GetOrOpenStream
-//@   props C15
+//@   props C15 C12
 //@   requires m.imInv() && 0 <= id && id % 4 == m.nextStreamToOpen % 4
 //@   ensures [limit-iff] iff(result1 != nil, id > old(m.maxStream))
 //@   ensures [limit-code] implies(result1 != nil, iserr(result1, qerr.StreamLimitError) && m.nextStreamToOpen == old(m.nextStreamToOpen) && len(m.streams) == old(len(m.streams)))
@@ -46,7 +46,7 @@ package quic
 //@   decreases id + 4 - newNum
 
 //@ func (m *incomingStreamsMap[T]) deleteStream
-//@   props C15
+//@   props C15 C12
 //@   requires m.imInv() && 0 <= id
 //@   ensures [unknown] iff(result != nil, !old(has(m.streams, id)) || (id >= m.nextStreamToAccept && old(m.streams[id].shouldDelete)))
 //@   ensures [error-noop] implies(result != nil, len(m.streams) == old(len(m.streams)) && m.maxStream == old(m.maxStream))
@@ -58,7 +58,7 @@ package quic
 //@   modifies m.streams[*], m.maxStream
 
 //@ func (m *incomingStreamsMap[T]) DeleteStream
-//@   props C15
+//@   props C15 C12
 //@   requires m.imInv() && 0 <= id
 //@   ensures [state-error] implies(result != nil, iserr(result, qerr.StreamStateError) && len(m.streams) == old(len(m.streams)) && m.maxStream == old(m.maxStream))
 //@   ensures [credit-monotone] m.maxStream >= old(m.maxStream)
@@ -221,7 +221,7 @@ package quic
 //@   modifies h.connIDLimit
 
 //@ func (h *connIDManager) add
-//@   props C16
+//@   props C16 C12
 //@   requires h.qInv() && f.RetirePriorTo <= f.SequenceNumber && !h.closed
 //@   requires forall(k, 0, len(h.queue), h.queue[k].SequenceNumber >= h.highestRetired, trig(h.queue, k))
 //@   let early = f.SequenceNumber < max(old(h.activeSequenceNumber), old(h.highestProbingID)) || f.SequenceNumber < old(h.highestRetired)
@@ -792,3 +792,49 @@ package quic
 //@   invariant len(kept) <= rangeidx && samearray(kept, old(qtp.TransportParameters)) && cap(kept) == old(cap(qtp.TransportParameters))
 //@   invariant forall(j, 0, len(kept), !has(ids, tpid(kept[j])) && !(suppressGREASE && tpid(kept[j]) >= 27 && (tpid(kept[j]) - 27) % 31 == 0), trig(kept, j))
 //@   modifies old(qtp.TransportParameters)[*]
+
+// ---------------- enforced limits >= advertised limits (C12) ----------------
+//@ func (c *Config) Clone
+//@   props C12
+//@   ensures [fresh-copy] result != nil && isfresh(result)
+//@   ensures [same-values] result.InitialConnectionReceiveWindow == c.InitialConnectionReceiveWindow && result.InitialStreamReceiveWindow == c.InitialStreamReceiveWindow && result.MaxStreamReceiveWindow == c.MaxStreamReceiveWindow && result.MaxConnectionReceiveWindow == c.MaxConnectionReceiveWindow && result.MaxIncomingStreams == c.MaxIncomingStreams && result.MaxIncomingUniStreams == c.MaxIncomingUniStreams && result.MaxIdleTimeout == c.MaxIdleTimeout && result.EnableDatagrams == c.EnableDatagrams
+//@   modifies nothing
+
+//@ spec covers(c *Config, tp tls.TransportParameter) bool =
+//@   implies(typeis(tp, tls.InitialMaxData), c.InitialConnectionReceiveWindow >= dyn(tp, tls.InitialMaxData) && c.MaxConnectionReceiveWindow >= dyn(tp, tls.InitialMaxData)) &&
+//@   implies(typeis(tp, tls.InitialMaxStreamDataBidiLocal), c.InitialStreamReceiveWindow >= dyn(tp, tls.InitialMaxStreamDataBidiLocal)) &&
+//@   implies(typeis(tp, tls.InitialMaxStreamDataBidiRemote), c.InitialStreamReceiveWindow >= dyn(tp, tls.InitialMaxStreamDataBidiRemote)) &&
+//@   implies(typeis(tp, tls.InitialMaxStreamDataUni), c.InitialStreamReceiveWindow >= dyn(tp, tls.InitialMaxStreamDataUni)) &&
+//@   implies(typeis(tp, tls.InitialMaxStreamsBidi) && dyn(tp, tls.InitialMaxStreamsBidi) <= 1152921504606846976, c.MaxIncomingStreams >= dyn(tp, tls.InitialMaxStreamsBidi)) &&
+//@   implies(typeis(tp, tls.InitialMaxStreamsUni) && dyn(tp, tls.InitialMaxStreamsUni) <= 1152921504606846976, c.MaxIncomingUniStreams >= dyn(tp, tls.InitialMaxStreamsUni)) &&
+//@   implies(typeis(tp, tls.MaxIdleTimeout) && dyn(tp, tls.MaxIdleTimeout) <= 9223372036854, c.MaxIdleTimeout >= dyn(tp, tls.MaxIdleTimeout) * 1000000) &&
+//@   implies(typeis(tp, tls.MaxDatagramFrameSize) && dyn(tp, tls.MaxDatagramFrameSize) > 0, c.EnableDatagrams)
+
+//@ func (s *QUICSpec) configEnforcingAdvertisedLimits
+//@   props C12
+//@   requires conf != nil
+//@   let exts = s.ClientHelloSpec.Extensions
+//@   ensures [no-spec] implies(s.ClientHelloSpec == nil, result == conf)
+//@   ensures [advertised-covered] implies(s.ClientHelloSpec != nil, forall(e, 0, len(exts), implies(typeis(exts[e], *tls.QUICTransportParametersExtension) && forall(f, 0, e, !typeis(exts[f], *tls.QUICTransportParametersExtension)),
+//@                                    forall(k, 0, len(dyn(exts[e], *tls.QUICTransportParametersExtension).TransportParameters), covers(result, dyn(exts[e], *tls.QUICTransportParametersExtension).TransportParameters[k])))))
+//@   ensures [windows-consistent] implies(result != conf, result.MaxStreamReceiveWindow >= result.InitialStreamReceiveWindow && result.MaxConnectionReceiveWindow >= result.InitialConnectionReceiveWindow)
+//@   ensures [never-lower] result.InitialConnectionReceiveWindow >= conf.InitialConnectionReceiveWindow && result.InitialStreamReceiveWindow >= conf.InitialStreamReceiveWindow && result.MaxIncomingStreams >= conf.MaxIncomingStreams && result.MaxIncomingUniStreams >= conf.MaxIncomingUniStreams && result.MaxIdleTimeout >= conf.MaxIdleTimeout && implies(conf.EnableDatagrams, result.EnableDatagrams)
+//@   modifies nothing
+//@ loop (s *QUICSpec) configEnforcingAdvertisedLimits #0
+//@   invariant 0 <= rangeidx && rangeidx <= len(exts)
+//@   invariant forall(f, 0, rangeidx, !typeis(exts[f], *tls.QUICTransportParametersExtension))
+//@   modifies nothing
+//@ loop (s *QUICSpec) configEnforcingAdvertisedLimits #1
+//@   invariant 0 <= rangeidx1 && rangeidx1 <= len(qtp.TransportParameters) && c != nil && isfresh(c) && c != conf
+//@   invariant forall(k, 0, rangeidx1, covers1(c, qtp.TransportParameters[k]))
+//@   invariant c.InitialConnectionReceiveWindow >= conf.InitialConnectionReceiveWindow && c.InitialStreamReceiveWindow >= conf.InitialStreamReceiveWindow && c.MaxIncomingStreams >= conf.MaxIncomingStreams && c.MaxIncomingUniStreams >= conf.MaxIncomingUniStreams && c.MaxIdleTimeout >= conf.MaxIdleTimeout && implies(conf.EnableDatagrams, c.EnableDatagrams)
+//@   modifies c.*
+//@ spec covers1(c *Config, tp tls.TransportParameter) bool =
+//@   implies(typeis(tp, tls.InitialMaxData), c.InitialConnectionReceiveWindow >= dyn(tp, tls.InitialMaxData)) &&
+//@   implies(typeis(tp, tls.InitialMaxStreamDataBidiLocal), c.InitialStreamReceiveWindow >= dyn(tp, tls.InitialMaxStreamDataBidiLocal)) &&
+//@   implies(typeis(tp, tls.InitialMaxStreamDataBidiRemote), c.InitialStreamReceiveWindow >= dyn(tp, tls.InitialMaxStreamDataBidiRemote)) &&
+//@   implies(typeis(tp, tls.InitialMaxStreamDataUni), c.InitialStreamReceiveWindow >= dyn(tp, tls.InitialMaxStreamDataUni)) &&
+//@   implies(typeis(tp, tls.InitialMaxStreamsBidi) && dyn(tp, tls.InitialMaxStreamsBidi) <= 1152921504606846976, c.MaxIncomingStreams >= dyn(tp, tls.InitialMaxStreamsBidi)) &&
+//@   implies(typeis(tp, tls.InitialMaxStreamsUni) && dyn(tp, tls.InitialMaxStreamsUni) <= 1152921504606846976, c.MaxIncomingUniStreams >= dyn(tp, tls.InitialMaxStreamsUni)) &&
+//@   implies(typeis(tp, tls.MaxIdleTimeout) && dyn(tp, tls.MaxIdleTimeout) <= 9223372036854, c.MaxIdleTimeout >= dyn(tp, tls.MaxIdleTimeout) * 1000000) &&
+//@   implies(typeis(tp, tls.MaxDatagramFrameSize) && dyn(tp, tls.MaxDatagramFrameSize) > 0, c.EnableDatagrams)
